@@ -36,16 +36,17 @@ PROPS = {
         design_ref="DESIGN.md section 4, C01",
     ),
     "C02": S(
-        [o.opc1_cache_normalisation, o.exi2_consumers, o.alias1, o.int_intervals, o.opc5_version_coverage, o.opc6_exit_templates, o.opc8_jump_arithmetic, o.opc10_handler_queue_order, o.opc12_block_walk_table, o.opc13_exception_path_exit, o.opc14_async_position_310, o.exi1_producers, layout.blk1] + [version.ver1_opcodes, version.ver2_dispatch, fmt.mode4, fmt.cont7],
+        [o.opc1_cache_normalisation, o.exi2_consumers, o.alias1, o.int_intervals, o.opc5_version_coverage, o.opc6_exit_templates, o.opc8_jump_arithmetic, o.opc10_handler_queue_order, o.opc12_block_walk_table, o.opc13_exception_path_exit, o.opc14_async_position_310, o.opc15_exit_sites, o.exi1_producers, layout.blk1] + [version.ver1_opcodes, version.ver2_dispatch, fmt.mode4, fmt.cont7],
         explanation="Clauses specific to frames running on the calling thread: a forward must-dataflow over the CFG of currently_exiting_context tracks whether `offs` has skipped inline CACHE units "
                     "on every path to each identity test against an opcode that carries cache entries in some reachable interpreter (SEND on 3.12, CALL on 3.11/3.12, PRECALL on 3.11) -- "
                     "a running frame's f_lasti may rest on such an entry; every consumer addresses the exiting context as [-1] and recovers obj from the first argument of the next inner frame; "
                     "interval convention of the handler-depth lookup that trims a running frame's stack; plus the version rules on the code involved.",
-        decides=["OPC-1", "EXI-2", "INT", "VER-1", "VER-2"],
+        decides=["OPC-1", "EXI-2", "INT", "OPC-5", "OPC-6", "OPC-12", "OPC-13", "OPC-14", "OPC-15", "BLK-1", "VER-1", "VER-2"],
         not_decided=["per-opcode f_lasti conventions beyond the cache-entry rule", "everything listed under C01"],
         assumptions=BASE_ASSUME + FACT_ASSUME + ["pycore_frame.h: prev_instr 'may be an inline CACHE entry' for a running frame"],
         level_text="Static path-sensitive check (must-analysis on the function's CFG, per interpreter version) of the cache-normalisation discipline, plus sibling-agreement checks on the 'exiting context is last' convention. "
-                   "Found F1 (running __aexit__ on 3.12), repaired in /repo; reports it again if it returns.",
+                   "Found F1 (running __aexit__ on 3.12), repaired in /repo; reports it again if it returns.  States F2 (exit call of a with-body that ends in a compound statement is not resolved on 3.11 / 3.12) "
+                   "as nine open known findings (OPC-15: the function evaluated on 104 compiled exit sites); any other shape that stops resolving is a violation.",
         level_note="Necessary conditions only; inline-cache-entry counts come from each interpreter's opcode module.",
         technique="static analysis: CFG must-dataflow (typestate RAW/NORM of the instruction offset) + sibling agreement",
         design_ref="DESIGN.md section 4, C02",
@@ -188,7 +189,7 @@ PROPS = {
         design_ref="DESIGN.md section 4, C04",
     ),
     "C09": S(
-        slices.C09 + [e.ctx5, e.cont1_2, e.opt1, o.alias1, o.exi1_producers, o.exi2_consumers, o.opc5_version_coverage, o.opc6_exit_templates, o.opc12_block_walk_table, o.opc13_exception_path_exit, o.opc14_async_position_310, safety.esc1] + version.API,
+        slices.C09 + [e.ctx5, e.cont1_2, e.opt1, o.alias1, o.exi1_producers, o.exi2_consumers, o.opc5_version_coverage, o.opc6_exit_templates, o.opc12_block_walk_table, o.opc13_exception_path_exit, o.opc14_async_position_310, o.opc15_exit_sites, safety.esc1] + version.API,
         explanation="inner_stack is assigned from extract_child(<manager's generator>, for_task=False) only under `not context.is_exiting` in both sibling registrations; the four-way classification of elaborate_exit_stack assigns method names in sync/async pairs that are real methods of ExitStack/AsyncExitStack "
                     "on every supported interpreter, and every private contextlib name it reads (_exit_callbacks, element order (is_sync, callback), wrapper name _exit_wrapper, free variables args/kwds, __wrapped__, MethodType exit wrappers, _GeneratorContextManagerBase attributes) "
                     "agrees with contextlib.py of CPython 3.9-3.12; the child's is_async is the negation of is_sync; children are unfolded with fill_context, appended in deque (registration) order and assigned once.",
